@@ -101,11 +101,12 @@ PROPS = {
         ],
     },
     "C05": {
-        "units": ["cer", "clt"], "kani_complete": [], "kani_bounded_quick": [], "kani_bounded_thorough": [],
+        "units": ["cer", "clt", "sto"], "kani_complete": [], "kani_bounded_quick": [], "kani_bounded_thorough": [],
         "design_ref": "DESIGN.md section 5 / C05",
         "not_covered": [
-            "the stores shipped with the library (MemoryStore, Option<Passkey>, lock wrappers): iterator/closure "
-            "chains outside Verus, intractable under Kani; by reading they ignore rp_id (DESIGN.md section 6, D7)",
+            "the shipped stores Option<Passkey> and MemoryStore ARE decided (unit sto, over models of find_map / filter_map / HashMap "
+            "lookup by byte content): they do not implement the lookup contract (known findings D7a-c); the tokio lock wrappers only "
+            "forward to the wrapped store and are not extracted (tokio guards)",
         ],
     },
     "C07": {
